@@ -739,8 +739,17 @@ def add_online_moments(a: np.ndarray, b: np.ndarray, c: np.ndarray) -> None:
         / (ncount**2)
     )
     c["m4"][:] += 4 * delta * (a["count"] * b["m3"] - b["count"] * a["m3"]) / c["count"]
-    c["max"][:] = np.maximum(a["max"], b["max"])
-    c["min"][:] = np.minimum(a["min"], b["min"])
+    # An accumulator that has seen no sample holds 0 as a placeholder, not an extreme
+    c["max"][:] = np.where(
+        a["count"] == 0,
+        b["max"],
+        np.where(b["count"] == 0, a["max"], np.maximum(a["max"], b["max"])),
+    )
+    c["min"][:] = np.where(
+        a["count"] == 0,
+        b["min"],
+        np.where(b["count"] == 0, a["min"], np.minimum(a["min"], b["min"])),
+    )
 
 
 @njit(cache=True, fastmath=True)
